@@ -5,11 +5,12 @@
 
 use crate::{assume, ob, witness, Src, R};
 use arrayvec::ArrayVec;
-use scpi::parser::format::Character;
+use scpi::parser::format::{Arbitrary, Character};
 use scpi::parser::response::Formatter;
 
 /// script: up to U units, each with an optional (one- or two-level) header and 1..=3 data elements,
-/// each datum a bool ("0"/"1") or the character datum AB
+/// each datum a bool ("0"/"1"), the character datum AB, or the one-byte block `#11;` (a datum whose
+/// last byte is the unit separator character)
 fn drive<F: Formatter, const U: usize, S: Src>(s: &mut S, f: &mut F, want: &mut ArrayVec<u8, 64>) -> Result<bool, &'static str> {
     let units = s.u8() as usize;
     s.assume(units <= U);
@@ -25,7 +26,7 @@ fn drive<F: Formatter, const U: usize, S: Src>(s: &mut S, f: &mut F, want: &mut 
         // draw the unit's script even when it is not executed (fixed draw order)
         let hdr = s.u8() % 3;
         let nd = 1 + (s.u8() % 3) as usize;
-        let kinds = [s.bool(), s.bool(), s.bool()];
+        let kinds = [s.u8() % 3, s.u8() % 3, s.u8() % 3];
         let vals = [s.bool(), s.bool(), s.bool()];
         if u < units {
             if u > 0 {
@@ -54,13 +55,19 @@ fn drive<F: Formatter, const U: usize, S: Src>(s: &mut S, f: &mut F, want: &mut 
                 if d > 0 {
                     want.push(b',');
                 }
-                if kinds[d] {
+                if kinds[d] == 0 {
                     ru.data(vals[d]);
                     want.push(if vals[d] { b'1' } else { b'0' });
-                } else {
+                } else if kinds[d] == 1 {
                     ru.data(Character(b"AB"));
                     want.push(b'A');
                     want.push(b'B');
+                } else {
+                    ru.data(Arbitrary(b";"));
+                    want.push(b'#');
+                    want.push(b'1');
+                    want.push(b'1');
+                    want.push(b';');
                 }
                 d += 1;
             }
